@@ -230,6 +230,10 @@ def gen_case(rng, index, tier):
         for nd in L.nodes:
             if nd['p'] == ik:
                 nd['c'] = text
+    for e in entries[len(specs):]:
+        # entries the world builder added on its own (sibling links)
+        e['dkind'] = 'normal'
+        e['text_date'] = e['date']
     # orphans and junk
     extras = []
     if rng.random() < 0.5:
